@@ -291,10 +291,15 @@ func genC11(o *hx.Out, tier string) {
 	for sc := 0; sc < nrt; sc++ {
 		runtime.GOMAXPROCS([]int{1, 2, 16}[sc%3])
 		raw := sc%2 == 0
+		withSR := sc%4 == 1 // the router also answers ArduPilot heartbeats with stream requests
 		pipes := []*scn.Pipe{scn.NewPipe("in"), scn.NewPipe("o1"), scn.NewPipe("o2")}
 		node := newNode(pipes, func(c *gomavlib.NodeConf) {
 			if !raw {
 				c.Dialect = d
+			}
+			if withSR {
+				c.Dialect = shipped("common")
+				c.StreamRequestEnable = true
 			}
 		})
 		n := 10 + r.Intn(40)
@@ -302,6 +307,9 @@ func genC11(o *hx.Out, tier string) {
 		var stream []byte
 		for i := 0; i < n; i++ {
 			m := hx.RandMessage(r, d.Messages[0], 2)
+			if withSR {
+				m.(*minimal.MessageHeartbeat).Autopilot = 3
+			}
 			b := frameBytes(drw, validFrame(r, drw, m, r.Intn(4) != 0, nil))
 			frames = append(frames, b)
 			stream = append(stream, b...)
@@ -359,11 +367,79 @@ func genC11(o *hx.Out, tier string) {
 				}
 			}
 		}
-		if len(pipes[0].Writes()) != 0 && verdict == "ok" {
+		if len(pipes[0].Writes()) != 0 && verdict == "ok" && !withSR {
 			verdict = "FORWARDED-BACK-TO-SENDER"
 		}
 		scn.CloseWithin(node, 10*time.Second)
-		o.Add(fmt.Sprintf("router raw=%v", raw), verdict, "expect", "ok", fmt.Sprintf("router raw=%v n=%d", raw, n))
+		o.Add(fmt.Sprintf("router raw=%v sr=%v", raw, withSR), verdict, "expect", "ok", fmt.Sprintf("router raw=%v sr=%v n=%d", raw, withSR, n))
+	}
+	// ---- stream requests (written by the node on behalf of a channel's reader) while the
+	// application writes to the same channel: every write on the wire is one whole frame and the
+	// originated sequence numbers have no gap ----
+	{
+		cd := shipped("common")
+		cdrw := &dialect.ReadWriter{Dialect: cd}
+		cdrw.Initialize() //nolint:errcheck
+		nsr := 4
+		if tier == "thorough" {
+			nsr = 40
+		}
+		for sc := 0; sc < nsr; sc++ {
+			runtime.GOMAXPROCS([]int{2, 16}[sc%2])
+			pipe := scn.NewPipe("sr")
+			node := newNode([]*scn.Pipe{pipe}, func(c *gomavlib.NodeConf) {
+				c.Dialect = cd
+				c.StreamRequestEnable = true
+			})
+			col := scn.NewCollector(node, 0, false)
+			chs, ok := openChannels(col, []*scn.Pipe{pipe})
+			if !ok {
+				node.Close()
+				continue
+			}
+			nhb := 20 + r.Intn(20)
+			var wg sync.WaitGroup
+			wg.Add(2)
+			go func() { // heartbeats of nhb distinct ArduPilot components: one burst of seven requests each
+				defer wg.Done()
+				for i := 0; i < nhb; i++ {
+					hb := &minimal.MessageHeartbeat{Type: 1, Autopilot: 3, SystemStatus: 4, MavlinkVersion: 3}
+					mrw := cdrw.GetMessage(0)
+					f := &frame.V2Frame{SequenceNumber: byte(i), SystemID: byte(1 + i%200), ComponentID: byte(1 + i/200), Message: mrw.Write(hb, true)}
+					f.Checksum = f.GenerateChecksum(mrw.CRCExtra())
+					pipe.Feed(frameBytes(cdrw, f))
+					if i%4 == 3 {
+						runtime.Gosched()
+					}
+				}
+			}()
+			nw := 40 + r.Intn(40)
+			go func() { // the application writes to the same channel meanwhile
+				defer wg.Done()
+				for i := 0; i < nw; i++ {
+					node.WriteMessageTo(chs[0], serialMsg(i)) //nolint:errcheck
+					if i%8 == 7 {
+						time.Sleep(50 * time.Microsecond) // stay below the queue capacity
+					}
+				}
+			}()
+			wg.Wait()
+			col.Wait(func() bool { return countFrameEvents(col.Events(chs[0])) >= nhb })
+			node.WriteMessageTo(chs[0], serialMsg(markerSerial)) //nolint:errcheck
+			got := waitMarker(pipe, cdrw)
+			_, verdict := checkWire(pipe.Writes(), cdrw, nil, 10)
+			if !got && verdict == "ok" {
+				verdict = "MARKER-TIMEOUT"
+			}
+			if verdict == "ok" {
+				want := 7*nhb + nw + 1
+				if n := len(pipe.Writes()); n != want {
+					verdict = fmt.Sprintf("WIRE-COUNT %d want %d", n, want)
+				}
+			}
+			scn.CloseWithin(node, 10*time.Second)
+			o.Add("stream requests beside application writes", verdict, "expect", "ok", fmt.Sprintf("sr-vs-writes hb=%d writes=%d", nhb, nw))
+		}
 	}
 	// ---- a stalled channel does not keep writes from the healthy ones ----
 	for sc := 0; sc < 4; sc++ {
@@ -423,4 +499,14 @@ func genC11(o *hx.Out, tier string) {
 	fnode.Close()
 	runtime.GOMAXPROCS(runtime.NumCPU())
 	_ = reflect.TypeOf
+}
+
+func countFrameEvents(evs []gomavlib.Event) int {
+	n := 0
+	for _, e := range evs {
+		if _, ok := e.(*gomavlib.EventFrame); ok {
+			n++
+		}
+	}
+	return n
 }
